@@ -14,96 +14,42 @@ import vf
 import netdrive
 
 KNOWN_WIPE = {"kind": "double-crash-state-wipe"}
-
-
-# ----------------------------------------------------------------------------- running
-def build_test_binary(ctx):
-    exe = os.path.join(ctx.work, "agreement.test")
-    rc, out = ctx.sh(["go", "test", "-c", "-overlay", ctx.ovl, "-tags", "verif", "-vet=off", "-o", exe, "./agreement"],
-                     cwd=vf.REPO, timeout=2400)
-    if rc != 0 or not os.path.exists(exe):
-        ctx.tie_failures.append("NetDrive harness does not build against the current tree: " + out[-800:])
-        return None
-    return exe
-
-
-def run_shard(ctx, exe, name, env, timeout):
-    out_dir = os.path.join(ctx.work, name)
-    shutil.rmtree(out_dir, ignore_errors=True)
-    os.makedirs(out_dir)
-    e = {"VERIF_OUT": out_dir, "VERIF_SEED": str(ctx.seed), "VERIF_TIER": ctx.tier}
-    e.update(env)
-    rc, out = ctx.sh([exe, "-test.run", "^TestVerifNetDrive$", "-test.count=1", "-test.timeout", "%ds" % timeout],
-                     cwd=os.path.join(vf.REPO, "agreement"), env=e, timeout=timeout + 60)
-    return {"name": name, "dir": out_dir, "rc": rc, "out": out}
-
-
-def accept(ctx, shard):
-    """runs c01abs on the shard's trace; returns [(schedule id, round, [(line, verdict)])]"""
-    tr = os.path.join(shard["dir"], "netdrive.trace")
-    if not os.path.exists(tr):
-        return []
-    outp = os.path.join(shard["dir"], "trace.out")
-    rc = ctx.driver("c01abs", [], tr, outp, timeout=3000)
-    lines, verdicts = ctx.read_lines(tr), ctx.read_lines(outp)
-    if rc != 0 or len(lines) != len(verdicts):
-        ctx.tie_failures.append("acceptor c01abs failed on %s (rc=%d, %d lines, %d answers)" % (tr, rc, len(lines), len(verdicts)))
-        return []
-    hist, cur = [], None
-    for l, v in zip(lines, verdicts):
-        m = re.match(r"# schedule (\d+) round (\d+)", l)
-        if m:
-            cur = (int(m.group(1)), int(m.group(2)), [])
-            hist.append(cur)
-        elif cur is not None:
-            cur[2].append((l, v))
-    return hist
-
-
-def schedules_of(shard):
-    """{id: [header + decision lines]}"""
-    res, cur = {}, None
-    for l in netdrive.read_lines(os.path.join(shard["dir"], "netdrive.sched")):
-        if l.startswith("schedule "):
-            cur = int(l.split()[1])
-            res[cur] = []
-        if cur is not None:
-            res[cur].append(l)
-    return res
-
-
-def logs_of(shard):
-    res = {}
-    for l in netdrive.read_lines(os.path.join(shard["dir"], "netdrive.log")):
-        m = re.match(r"S(\d+) (.*)", l)
-        if m:
-            res.setdefault(int(m.group(1)), []).append(m.group(2))
-    return res
-
-
-def kv(line):
-    return dict(x.split("=", 1) for x in line.split() if "=" in x)
+KNOWN_FAST = {"kind": "fastvote-before-cert"}
+KNOWN_STALECERT = {"kind": "panic-stale-cert-bundle"}
 
 
 # ----------------------------------------------------------------------------- analysis
 def analyse(ctx, shard, stats, corpus_name=None):
-    hists = accept(ctx, shard)
-    scheds, logs = schedules_of(shard), logs_of(shard)
+    hists = netdrive.accept(ctx, shard)
+    scheds, logs = netdrive.schedules_of(shard), netdrive.logs_of(shard)
     by_sched = {}
     for sid, rnd, evs in hists:
         by_sched.setdefault(sid, []).append((rnd, evs))
     if shard["rc"] != 0:
+        # monitor class "node panic": a Service goroutine (real agreement code) killed the process while executing the last
+        # schedule of the shard — a concrete failing schedule.  Anything else (build failure, harness fatal) is a tie failure.
         last = max(scheds) if scheds else None
-        tail = shard["out"][-600:]
-        ctx.tie_failures.append("NetDrive harness process failed (rc=%d) in %s, last schedule %s: %s" % (shard["rc"], shard["name"], last, tail))
-        if last is not None:
-            ctx.violation("the real agreement code (or the harness) crashed while executing this schedule: " + tail[-300:],
-                          {"kind": "netdrive", "sched": scheds[last], "corpus": corpus_name}, found_input=False)
+        out = shard["out"]
+        tail = out[-600:]
+        stats["crashes"] = stats.get("crashes", 0) + 1
+        in_service = ("agreement.(*Service).mainLoop" in out or "agreement.(*Service).demuxLoop" in out) and "panic" in out
+        m = re.search(r"^panic: (.*)$", out, re.M)
+        msg = m.group(1)[:200] if m else "process exited with rc=%d" % shard["rc"]
+        frames = [f for f in re.findall(r"agreement\.(\(\*?\w+\)\.\w+|\w+)\(", out) if not f.startswith("nd") and "logVote" not in f]
+        mk = KNOWN_STALECERT if ("(*periodRouter).update" in out and "nil pointer dereference" in out) else None
+        if last is not None and in_service:
+            if stats["crashes"] <= 3:
+                ctx.violation(("[a cert bundle of an old period of the current round reached a garbage-collected period router] " if mk else "") +
+                              "node panic: the real agreement code panicked inside a Service goroutine: %s; top frames: %s"
+                              % (msg, ", ".join(frames[:4])),
+                              {"kind": "netdrive", "sched": scheds[last], "corpus": corpus_name, "panic": tail}, found_input=True, match_key=mk)
+        else:
+            ctx.tie_failures.append("NetDrive harness process failed (rc=%d) in %s, last schedule %s: %s" % (shard["rc"], shard["name"], last, tail))
     for sid in sorted(scheds):
         log = logs.get(sid, [])
         header = scheds[sid][0]
         stats["schedules"] += 1
-        prof = kv(header).get("profile", "?")
+        prof = netdrive.kv(header).get("profile", "?")
         stats["profiles"][prof] = stats["profiles"].get(prof, 0) + 1
         for d in scheds[sid][1:]:
             k = d.split()[0]
@@ -112,11 +58,11 @@ def analyse(ctx, shard, stats, corpus_name=None):
         digests = {}
         for l in log:
             if l.startswith("ENSURE "):
-                f = kv(l)
+                f = netdrive.kv(l)
                 digests.setdefault(int(f["round"]), {}).setdefault(f["digest"], []).append("node %s gen %s (cert period %s)" % (f["node"], f["gen"], f["cperiod"]))
                 stats["ensure"] += 1
         conflict = {r: d for r, d in digests.items() if len(d) > 1}
-        wipe_nodes = {kv(l)["node"] for l in log if l.startswith("CHECKPOINT ") and kv(l).get("round") == "0"}
+        wipe_nodes = {netdrive.kv(l)["node"] for l in log if l.startswith("CHECKPOINT ") and netdrive.kv(l).get("round") == "0"}
         notes = [l for l in log if l.startswith("NOTE ") and any(t in l for t in ("QUIET-TIMEOUT", "HARNESS-PANIC", "SCHEDULE-TIMEOUT", "unknown-cause", "SHUTDOWN-TIMEOUT"))]
         for nline in notes[:2]:
             ctx.notes.append("schedule %d: %s" % (sid, nline[:200]))
@@ -134,7 +80,10 @@ def analyse(ctx, shard, stats, corpus_name=None):
                     if k in ("enter", "crash") or (k == "vote" and l.split()[3] not in ("1", "2")):
                         nontrivial = True
                 if k == "params" and "hq=true" not in v:
-                    ctx.tie_failures.append("schedule %d: parameters do not satisfy HQ (%s)" % (sid, v))
+                    if corpus_name:   # a directed robustness scenario with harness-played nodes: only the panic and digest monitors apply
+                        ctx.notes.append("corpus %s: HQ does not hold (%s): acceptance verdicts are informational" % (corpus_name, v))
+                    else:
+                        ctx.tie_failures.append("schedule %d: parameters do not satisfy HQ (%s)" % (sid, v))
                 if v.startswith("reject"):
                     rejects.append((rnd, l, v))
                 if "SAFETY-VIOLATION" in v:
@@ -155,7 +104,11 @@ def analyse(ctx, shard, stats, corpus_name=None):
                   "digests": {str(r): d for r, d in conflict.items()}}
         rej_nodes = {r[1].split()[1] for r in rejects if len(r[1].split()) > 1}
         wipe = bool(wipe_nodes) and (not rejects or bool(rej_nodes & wipe_nodes))
-        mk = KNOWN_WIPE if wipe else None
+        # a fast-recovery vote (redo/down) cast while player.Step ≤ cert, or a late vote while Step = soft
+        fast = any(l.startswith("ATTEST ") and ((netdrive.kv(l).get("step") in ("254", "255") and netdrive.kv(l).get("pstep") in ("1", "2")) or
+                                                (netdrive.kv(l).get("step") == "253" and netdrive.kv(l).get("pstep") == "1")) for l in log)
+        fast = fast and any(r[2].split()[-1] in ("cert-after-next", "soft-after-next") for r in rejects)
+        mk = KNOWN_WIPE if wipe else (KNOWN_FAST if fast else None)
         if conflict or abstract_violation:
             r0 = sorted(conflict)[0] if conflict else None
             what = ("two different blocks committed for round %s: %s" % (r0, json.dumps(conflict[r0])) if conflict
@@ -164,6 +117,8 @@ def analyse(ctx, shard, stats, corpus_name=None):
                 what += "; first rule broken by the real code: `%s` → %s" % (rejects[0][1], rejects[0][2])
             if wipe:
                 what += " [crash state wiped by the re-executed attest after a restore; second crash forgets the round's votes]"
+            if fast and not wipe:
+                what += " [fast-recovery vote cast while player.Step ≤ cert, earlier step's vote cast afterwards]"
             if ctx.violation(what, replay, found_input=True, match_key=mk):
                 stats["violations"] += 1
         else:
@@ -171,8 +126,10 @@ def analyse(ctx, shard, stats, corpus_name=None):
                     "round %d `%s` → %s" % rejects[0])
             if wipe:
                 what += " [crash state wiped by the re-executed attest after a restore; second crash forgets the round's votes]"
+            if fast and not wipe:
+                what += " [fast-recovery vote cast while player.Step ≤ cert, earlier step's vote cast afterwards]"
             stats["reject_scheds"].append(sid)
-            if len([1 for s in stats["reject_scheds"]]) <= 4:
+            if len(stats["reject_scheds"]) <= 3:
                 ctx.violation(what, replay, found_input=False, match_key=mk)
     return by_sched
 
@@ -187,7 +144,7 @@ ASSUMPTIONS = [
     "committees are idealised as fixed weights per round; the sortition probability argument (stake fractions ⇒ HQ for sampled committees) is NOT proved",
     "the refinement `real player ⊑ WF true` is NOT a theorem: it is checked by trace acceptance (c01abs = checkEv, checkEv_none_iff) on the sampled schedules only",
     "signatures / VRF unforgeable: a vote carrying an honest sender was cast by that node (Byzantine votes are signed by the harness with the Byzantine nodes' own real keys only)",
-    "timer order (environment): no fast-recovery timeout is handled while the player is at Step ≤ cert in a period in which it later cert-votes — true when timers fire in deadline order; default schedules respect it (see the report: with it violated the real code can reach two commits)",
+    "timers are environment: the harness fires step deadlines and fast-recovery timeouts in any order, at any step (no timer-order assumption: issueFastVote gives up the earlier steps of the period)",
     "goroutine scheduling inside a Service is not controlled: the harness serialises by waiting for quiescence (the package's coserviceMonitor accounting) between schedule decisions",
     "one abstract history per round (rounds_compose); votes enter the trace at the handle that produced the attest and only if persisted or released",
 ]
@@ -205,7 +162,7 @@ def run(ctx, replay=None):
     ctx.cov["rule"] = ("a case = one (schedule, round) history of a real multi-node run: 4–7 real Services, PRNG-chosen deliver/drop/dup/delay, "
                        "timeouts, partitions, crashes+restores, Byzantine equivocation; non-trivial = it commits and contains a period change, "
                        "a crash or a next-type vote; distinct by construction (different schedule seeds)")
-    exe = build_test_binary(ctx)
+    exe = netdrive.build_test_binary(ctx)
     if exe is None:
         return
     stats = new_stats()
@@ -216,7 +173,7 @@ def run(ctx, replay=None):
         rp = os.path.join(ctx.work, "replay.sched")
         open(rp, "w").write("\n".join(replay["sched"]) + "\n")
         for i in range(2):   # twice: goroutine scheduling inside a Service is not controlled
-            sh = run_shard(ctx, exe, "replay%d" % i, {"VERIF_REPLAY": rp}, tmo)
+            sh = netdrive.run_shard(ctx, exe, "replay%d" % i, {"VERIF_REPLAY": rp}, tmo)
             analyse(ctx, sh, stats, corpus_name=replay.get("corpus"))
             if ctx.violations:
                 break
@@ -226,7 +183,7 @@ def run(ctx, replay=None):
     # ---- 1. corpus: schedules that once broke the property (must be accepted on a correct tree)
     for path in sorted(glob.glob(os.path.join(vf.VERIF, "corpus", "C01", "*.sched"))):
         name = "corpus-" + os.path.basename(path)[:-6]
-        sh = run_shard(ctx, exe, name, {"VERIF_REPLAY": path}, tmo)
+        sh = netdrive.run_shard(ctx, exe, name, {"VERIF_REPLAY": path}, tmo)
         analyse(ctx, sh, stats, corpus_name=os.path.basename(path))
 
     # ---- 2. generated schedules, in parallel shards
@@ -238,20 +195,22 @@ def run(ctx, replay=None):
         total = max(1, total * int(scale) // 100)
     nsh = ctx.budget(4, 8)
     per = (total + nsh - 1) // nsh
-    jobs = [("shard%d" % i, {"VERIF_ND_FROM": str(i * per), "VERIF_ND_SCHEDULES": str(min(total, (i + 1) * per))}) for i in range(nsh) if i * per < total]
+    jobs = [("shard%d" % i, i * per, min(total, (i + 1) * per)) for i in range(nsh) if i * per < total]
     with concurrent.futures.ThreadPoolExecutor(max_workers=len(jobs)) as ex:
-        shards = list(ex.map(lambda j: run_shard(ctx, exe, j[0], j[1], tmo), jobs))
-    for sh in shards:
-        analyse(ctx, sh, stats)
+        groups = list(ex.map(lambda j: netdrive.run_range(ctx, exe, j[0], j[1], j[2], {}, tmo), jobs))
+    for g in groups:
+        for sh in g:
+            analyse(ctx, sh, stats)
 
     # ---- 3. a rejected trace without differing commits: search harder around it (same configurations, more seeds)
     if stats["reject_scheds"] and not any(v["found_input"] for v in ctx.violations):
         extra = ctx.budget(60, 600)
-        jobs = [("search%d" % i, {"VERIF_SEED": str(ctx.seed * 977 + 101 + i), "VERIF_ND_FROM": "0", "VERIF_ND_SCHEDULES": str(extra // 4)}) for i in range(4)]
+        jobs = [("search%d" % i, {"VERIF_SEED": str(ctx.seed * 977 + 101 + i)}) for i in range(4)]
         with concurrent.futures.ThreadPoolExecutor(max_workers=4) as ex:
-            shards = list(ex.map(lambda j: run_shard(ctx, exe, j[0], j[1], tmo), jobs))
-        for sh in shards:
-            analyse(ctx, sh, stats)
+            groups = list(ex.map(lambda j: netdrive.run_range(ctx, exe, j[0], 0, extra // 4, j[1], tmo), jobs))
+        for g in groups:
+            for sh in g:
+                analyse(ctx, sh, stats)
         ctx.notes.append("rejected traces seen: %d extra schedules searched for differing commits" % extra)
     finish_cov(ctx, stats)
 
